@@ -393,8 +393,10 @@ func (b *Binlog) RunPollLoop() error {
 			} else if err != nil && err.Error() == "sql: database is closed" {
 				continue
 			} else if err != nil {
+				// We don't know what the event changed: hand it to the tracker with
+				// the error set, so that every query on the table is invalidated.
 				b.logger.Error("livesql: failed to parse rows event", "error", err)
-				continue
+				u = &update{table: string(inner.Table.Table), err: err}
 			}
 
 			b.delayMu.Lock()
